@@ -364,6 +364,10 @@ impl TcpListener {
         self.net.lock().listeners[self.id].port
     }
 
+    pub fn local_addr(&self) -> io::Result<SocketAddr> {
+        Ok(SocketAddr::new(IpAddr::V4(Ipv4Addr::new(127, 0, 0, 1)), self.port()))
+    }
+
     pub async fn accept(&self) -> io::Result<(TcpStream, SocketAddr)> {
         poll_fn(|cx| self.poll_accept(cx)).await
     }
@@ -415,6 +419,51 @@ impl TcpStream {
     }
     pub fn set_linger(&self, _d: Option<Duration>) -> io::Result<()> {
         Ok(())
+    }
+    pub fn nodelay(&self) -> io::Result<bool> {
+        Ok(true)
+    }
+    pub fn linger(&self) -> io::Result<Option<Duration>> {
+        Ok(None)
+    }
+    pub fn set_ttl(&self, _ttl: u32) -> io::Result<()> {
+        Ok(())
+    }
+    pub fn ttl(&self) -> io::Result<u32> {
+        Ok(64)
+    }
+    pub fn local_addr(&self) -> io::Result<SocketAddr> {
+        Ok(SocketAddr::new(IpAddr::V4(Ipv4Addr::new(127, 0, 0, 1)), 11211))
+    }
+    /// Resolves when the stream has something to read (data, EOF or an error).
+    pub async fn readable(&self) -> io::Result<()> {
+        poll_fn(|cx| {
+            self.net.bump();
+            let mut g = self.net.lock();
+            let cs = &mut g.conns[self.id];
+            if cs.reset || cs.in_eof || !cs.inbound.is_empty() {
+                Poll::Ready(Ok(()))
+            } else {
+                cs.read_waker = Some(cx.waker().clone());
+                Poll::Pending
+            }
+        })
+        .await
+    }
+    /// Resolves when the stream can take at least one byte.
+    pub async fn writable(&self) -> io::Result<()> {
+        poll_fn(|cx| {
+            self.net.bump();
+            let mut g = self.net.lock();
+            let cs = &mut g.conns[self.id];
+            if cs.reset || cs.window > 0 {
+                Poll::Ready(Ok(()))
+            } else {
+                cs.write_waker = Some(cx.waker().clone());
+                Poll::Pending
+            }
+        })
+        .await
     }
     pub fn peer_addr(&self) -> io::Result<SocketAddr> {
         Ok(SocketAddr::new(
